@@ -43,7 +43,6 @@ package xar
 //@
 //@ func (*XAR).checkFiles
 //@   property C02
-//@   requires x != nil && x.toc != nil
 //@   ghost checked int = 0
 //@   before call gatherDataFiles(files, out): assert @members_taken_from_the_table_of_contents sameslice(files, x.toc.Files) && out == addr(dataFiles)
 //@   on call checkFile(h, f) ret (e): checked = checked + ite(e == nil && h == x.heap, 1, 0)
